@@ -68,8 +68,22 @@ type child struct {
 	errb  *bytes.Buffer
 }
 
-func startChild() (*child, error) {
-	cmd := exec.Command(os.Args[0], "-child")
+// Address-space caps of the child processes. An ordinary input may legitimately declare counts up
+// to the documented limits (50e6 vertices = 1.2 GB), so the ordinary child gets 4 GB; the few
+// deliberately large within-limit inputs run in a child of their own with 6 GB.
+const (
+	normalAS = 4 << 30
+	bigAS    = 6 << 30
+	// per-input watchdogs
+	normalWatchdog = 6 * time.Second
+	bigWatchdog    = 60 * time.Second
+	// after this many hangs / memory aborts / crashes of the child the remaining inputs are skipped:
+	// the run already has its failing inputs and must end in bounded time
+	maxAbnormal = 8
+)
+
+func startChild(as uint64) (*child, error) {
+	cmd := exec.Command(os.Args[0], "-child", fmt.Sprint(as))
 	in, err := cmd.StdinPipe()
 	if err != nil {
 		return nil, err
@@ -112,9 +126,42 @@ func tail(s string, n int) string {
 	return s
 }
 
-// runAll feeds the inputs to child processes; a dead or silent child yields abort / hang for the
-// input it was working on and a fresh child continues with the next input.
-func runAll(inputs []input) []result {
+// ask sends one input to a child and waits for its answer under the watchdog. The child is
+// dead (nil) afterwards if it crashed, ran out of memory or was killed by the watchdog.
+func ask(ch *child, inp input, limit time.Duration) (result, *child) {
+	hdr := make([]byte, 5)
+	hdr[0] = byte(inp.Kind)
+	binary.LittleEndian.PutUint32(hdr[1:], uint32(len(inp.Data)))
+	ch.in.Write(hdr)
+	ch.in.Write(inp.Data)
+	select {
+	case ln, ok := <-ch.lines:
+		if !ok {
+			ch.cmd.Wait()
+			msg := ch.errb.String()
+			out := "abort"
+			if strings.Contains(msg, "out of memory") || strings.Contains(msg, "cannot allocate memory") {
+				out = "memory"
+			}
+			return result{Out: out, Msg: tail(msg, 400)}, nil
+		}
+		var r result
+		if err := json.Unmarshal([]byte(ln), &r); err != nil {
+			ch.kill()
+			return result{Out: "abort", Msg: "unparsable child output: " + tail(ln, 200)}, nil
+		}
+		return r, ch
+	case <-time.After(limit):
+		ch.kill()
+		return result{Out: "hang", Msg: fmt.Sprintf("no answer within %v", limit)}, nil
+	}
+}
+
+// runAll feeds the inputs to child processes, one request at a time, each under a watchdog and an
+// address-space cap. A dead or silent child yields memory / abort / hang for the input it was
+// working on and a fresh child continues with the next input. The whole run is bounded: after
+// maxAbnormal such outcomes, or past the deadline, the remaining inputs are skipped.
+func runAll(inputs []input, deadline time.Time) []result {
 	res := make([]result, len(inputs))
 	var ch *child
 	defer func() {
@@ -122,41 +169,38 @@ func runAll(inputs []input) []result {
 			ch.kill()
 		}
 	}()
+	abnormal := 0
 	for i, inp := range inputs {
+		if abnormal >= maxAbnormal || time.Now().After(deadline) {
+			res[i] = result{Out: "skipped"}
+			continue
+		}
+		if inp.Big {
+			big, err := startChild(bigAS)
+			if err != nil {
+				fmt.Fprintln(os.Stderr, "cannot start child:", err)
+				os.Exit(2)
+			}
+			var alive *child
+			res[i], alive = ask(big, inp, bigWatchdog)
+			if alive != nil {
+				alive.kill()
+			} else {
+				abnormal++
+			}
+			continue
+		}
 		if ch == nil {
 			var err error
-			ch, err = startChild()
+			ch, err = startChild(normalAS)
 			if err != nil {
 				fmt.Fprintln(os.Stderr, "cannot start child:", err)
 				os.Exit(2)
 			}
 		}
-		hdr := make([]byte, 5)
-		hdr[0] = byte(inp.Kind)
-		binary.LittleEndian.PutUint32(hdr[1:], uint32(len(inp.Data)))
-		ch.in.Write(hdr)
-		ch.in.Write(inp.Data)
-		limit := 30 * time.Second
-		if inp.Big {
-			limit = 120 * time.Second
-		}
-		select {
-		case ln, ok := <-ch.lines:
-			if !ok {
-				ch.cmd.Wait()
-				res[i] = result{Out: "abort", Msg: tail(ch.errb.String(), 400)}
-				ch = nil
-				continue
-			}
-			if err := json.Unmarshal([]byte(ln), &res[i]); err != nil {
-				res[i] = result{Out: "abort", Msg: "unparsable child output: " + tail(ln, 200)}
-				ch.kill()
-				ch = nil
-			}
-		case <-time.After(limit):
-			res[i] = result{Out: "hang", Msg: fmt.Sprintf("no answer within %v", limit)}
-			ch.kill()
-			ch = nil
+		res[i], ch = ask(ch, inp, normalWatchdog)
+		if ch == nil {
+			abnormal++
 		}
 	}
 	return res
@@ -205,7 +249,7 @@ func encodeKind(rng *vkit.Rng, k cg.Kind) ([]byte, string) {
 		var p *s2.Polygon
 		for {
 			p, class = cg.GenPolygon(rng)
-			if _, _, _, nv := s2.VerifC09PolygonFields(p); nv <= 24 || rng.Intn(6) == 0 {
+			if _, _, _, nv := s2.VerifC09PolygonFields(p); nv <= 24 {
 				break
 			}
 		}
@@ -237,6 +281,12 @@ func regressionInputs() []input {
 		return cat([]byte{4, 0}, uv(1), uv(3), uv(3*6+0), uv(0), uv(0), uv(1), uv(idx), make([]byte, 24), uv(0), uv(0))
 	}
 	return []input{
+		{cg.KPolygon, []byte{4, 30, 1, 4}, "face runs: input ends before the face-run table", false},
+		{cg.KPolygon, []byte{4, 30, 1, 4, 12}, "face runs: input ends inside the face-run table", false},
+		{cg.KPolygon, []byte{4, 30, 1, 4, 0}, "face runs: run with count 0", false},
+		{cg.KPolygon, []byte{4, 30, 1, 4, 5, 0, 0, 0, 0}, "face runs: run with count 0 on face 5", false},
+		{cg.KPolygon, []byte{4, 30, 1, 4, 12, 0, 24, 1, 1, 1}, "face runs: count 0 between valid runs", false},
+		{cg.KPolygon, []byte{4, 30, 1, 4, 0x80}, "face runs: unterminated varint", false},
 		{cg.KPolygon, cat([]byte{4, 1}, uv(1<<40)), "regress:fb9db6b nloops=2^40", false},
 		{cg.KPolygon, cat([]byte{4, 1}, uv(1<<63)), "regress:fb9db6b nloops=2^63", false},
 		{cg.KPolygon, cat([]byte{4, 1}, uv(cg.MaxLoops+1)), "regress:fb9db6b nloops=limit+1", false},
@@ -291,8 +341,52 @@ func corpusInputs() []input {
 	return ins
 }
 
+// fieldInputs: every float64 field of a Rect and of a Cap replaced by non-finite and out-of-range
+// values, on every run (not seed dependent): Rect.Decode must refuse an invalid rectangle, and a
+// Cap that decodes must answer its queries.
+func fieldInputs() []input {
+	vals := []float64{math.NaN(), math.Inf(1), math.Inf(-1), 1e300, -1e300, 5, -5, math.Nextafter(math.Pi, 4), -math.Nextafter(math.Pi, 4),
+		math.Nextafter(math.Pi/2, 2), math.Float64frombits(0xFFF0000000000001), 4.0000001, -1e-320, 0, math.Copysign(0, -1)}
+	le := func(x float64) []byte {
+		var t [8]byte
+		binary.LittleEndian.PutUint64(t[:], math.Float64bits(x))
+		return t[:]
+	}
+	var ins []input
+	rects := []s2.Rect{s2.FullRect(), s2.EmptyRect(), s2.RectFromLatLng(s2.LatLngFromDegrees(10, 20)).AddPoint(s2.LatLngFromDegrees(30, -170))}
+	for ri, r := range rects {
+		base, _ := cg.Enc(func(w *bytes.Buffer) error { return r.Encode(w) })
+		for f := 0; f < 4; f++ {
+			for vi, v := range vals {
+				m := append([]byte{}, base...)
+				copy(m[1+8*f:], le(v))
+				ins = append(ins, input{cg.KRect, m, fmt.Sprintf("Rect field%d=value%d base%d", f, vi, ri), false})
+			}
+		}
+	}
+	caps := []s2.Cap{s2.FullCap(), s2.EmptyCap(), s2.CapFromCenterAngle(s2.PointFromCoords(1, 2, 3), 0.5)}
+	for ci, cp := range caps {
+		base, _ := cg.Enc(func(w *bytes.Buffer) error { return cp.Encode(w) })
+		for f := 0; f < 4; f++ {
+			for vi, v := range vals {
+				m := append([]byte{}, base...)
+				copy(m[8*f:], le(v))
+				ins = append(ins, input{cg.KCap, m, fmt.Sprintf("Cap field%d=value%d base%d", f, vi, ci), false})
+			}
+		}
+	}
+	// all fields non-finite at once, and a huge non-unit centre
+	ins = append(ins, input{cg.KCap, bytes.Repeat(le(math.NaN()), 4), "Cap all NaN", false},
+		input{cg.KCap, bytes.Repeat(le(math.Inf(1)), 4), "Cap all +Inf", false},
+		input{cg.KCap, append(bytes.Repeat(le(1e308), 3), le(2)...), "Cap huge centre", false},
+		input{cg.KCap, append(bytes.Repeat(le(0), 3), le(1)...), "Cap zero centre", false},
+		input{cg.KRect, append([]byte{1}, bytes.Repeat(le(math.NaN()), 4)...), "Rect all NaN", false})
+	return ins
+}
+
 func buildInputs(c *vkit.Collector, rng *vkit.Rng, budget int) []input {
 	ins := append(corpusInputs(), regressionInputs()...)
+	ins = append(ins, fieldInputs()...)
 	c.Extra["corpus_inputs"] = len(ins) - len(regressionInputs())
 	add := func(k cg.Kind, data []byte, label string, big bool) {
 		ins = append(ins, input{k, data, cg.KindNames[k] + " " + label, big})
@@ -348,6 +442,16 @@ func buildInputs(c *vkit.Collector, rng *vkit.Rng, budget int) []input {
 					add(k, m, fmt.Sprintf("version=%d", v), false)
 					c.Class("version-byte")
 				}
+			}
+		}
+		if k == cg.KPolygon {
+			// a few larger valid polygons (64+ vertices: encoded bounds), decoded as they are: the
+			// mutation families above stay on small encodings so that the case files stay small
+			for r := 0; r < 2*budget; r++ {
+				p, class := cg.GenPolygon(rng)
+				b, _ := cg.Enc(func(w *bytes.Buffer) error { return p.Encode(w) })
+				add(k, b, "valid(large) "+class, false)
+				c.Class("valid")
 			}
 		}
 		for q := 0; q < budget && len(bigs) > 0; q++ {
@@ -408,12 +512,22 @@ func coqDecode(k cg.Kind, data []byte) (fn, eq string) {
 func run(c *vkit.Collector, rng *vkit.Rng, budget int) {
 	ins := buildInputs(c, rng, budget)
 	t0 := time.Now()
-	res := runAll(ins)
+	secs := 100 * budget
+	if secs > 600 {
+		secs = 600
+	}
+	deadline := t0.Add(time.Duration(secs) * time.Second)
+	res := runAll(ins, deadline)
+	skipped := 0
 	outcomes := map[string]int{}
 	var slowest int64
 	for i, inp := range ins {
 		r := res[i]
 		kn := cg.KindNames[inp.Kind]
+		if r.Out == "skipped" {
+			skipped++
+			continue
+		}
 		outcomes[kn+":"+r.Out]++
 		if r.Millis > slowest {
 			slowest = r.Millis
@@ -436,7 +550,7 @@ func run(c *vkit.Collector, rng *vkit.Rng, budget int) {
 		default:
 			// panic, abort (child died: fatal error / out of memory), hang
 			c.Check(kn+" "+r.Out+" "+inp.Label, vkit.App("Z.eqb", vkit.App("result_class", vkit.App(fn, bt)), "2%Z"))
-			c.Violate(kn+".Decode."+r.Out, "Decode "+r.Out+"s: "+tail(r.Msg, 160), rep)
+			c.Violate(kn+".Decode."+r.Out, "Decode outcome "+r.Out+": "+tail(r.Msg, 160), rep)
 		}
 		if i < 6 || (r.Out == "ok" && len(c.Samples) < 8 && i%97 == 0) {
 			c.Sample(map[string]interface{}{"type": kn, "label": inp.Label, "input_hex": tail(hexIn, 120), "outcome": r.Out, "use": r.Use})
@@ -445,6 +559,7 @@ func run(c *vkit.Collector, rng *vkit.Rng, budget int) {
 			c.Extra[fmt.Sprintf("within_limit:%d:%s", i, inp.Label)] = map[string]interface{}{"outcome": r.Out, "ms": r.Millis}
 		}
 	}
+	c.Extra["skipped_after_failures_or_deadline"] = skipped
 	c.Extra["outcomes"] = outcomes
 	c.Extra["child_runs"] = len(ins)
 	c.Extra["child_wall_s"] = time.Since(t0).Seconds()
